@@ -1628,3 +1628,52 @@ Proof.
   { rewrite restore_state_id; apply reached_inv; exact Hwf. }
   exact (proj2 (stopping_mode_symmetry cfg evs2 _ Hmd HI)).
 Qed.
+
+(* ======================================================================== *)
+(* 11. Exact content of the constructed rung levels                          *)
+(* ======================================================================== *)
+
+Lemma arith_levels_spec max_t incr fuel : forall cur, (1 <= incr)%Z -> (max_t - cur <= Z.of_nat fuel)%Z ->
+  forall x, In x (arith_levels fuel cur incr max_t) <-> exists k, (0 <= k)%Z /\ x = (cur + k * incr)%Z /\ (x < max_t)%Z.
+Proof.
+  induction fuel as [|fuel IH]; intros cur Hi Hf x; simpl.
+  - split; [contradiction|]. intros [k [Hk [Hx Hlt]]]. nia.
+  - destruct (cur <? max_t)%Z eqn:E.
+    + simpl. rewrite (IH (cur + incr)%Z Hi ltac:(lia) x). split.
+      * intros [<-|[k [Hk [Hx Hlt]]]]; [exists 0%Z; lia|exists (k + 1)%Z; nia].
+      * intros [k [Hk [Hx Hlt]]]. destruct (Z.eq_dec k 0) as [->|Hne]; [left; lia|right; exists (k - 1)%Z; nia].
+    + split; [contradiction|]. intros [k [Hk [Hx Hlt]]]. nia.
+Qed.
+
+(* rung_increment: exactly the levels grace, grace + inc, grace + 2 inc, ... below max_t - none dropped, none added *)
+Theorem increment_levels_exact grace incr max_t l :
+  sh_rung_levels None grace None (Some incr) max_t = Some l ->
+  StronglySorted Z.lt l /\
+  forall x, In x l <-> exists k, (0 <= k)%Z /\ x = (grace + k * incr)%Z /\ (x < max_t)%Z.
+Proof.
+  intro H. destruct (sh_rung_levels_wf None grace None (Some incr) max_t l H) as [[Hs _] _]. split; [exact Hs|].
+  unfold sh_rung_levels in H.
+  destruct ((1 <=? grace)%Z && (1 <=? max_t)%Z && (grace <? max_t)%Z) eqn:E; [|discriminate].
+  apply andb_true_iff in E as [E E3]. apply andb_true_iff in E as [E1 E2].
+  destruct (1 <=? incr)%Z eqn:Ei; [|discriminate]. simpl in H. injection H as <-.
+  set (l0 := arith_levels (Z.to_nat max_t) grace incr max_t).
+  assert (Hspec : forall x, In x l0 <-> exists k, (0 <= k)%Z /\ x = (grace + k * incr)%Z /\ (x < max_t)%Z).
+  { apply arith_levels_spec; lia. }
+  assert (Hne : l0 <> []).
+  { intro Hn. assert (Hin : In grace l0) by (apply Hspec; exists 0%Z; lia). rewrite Hn in Hin. contradiction. }
+  destruct (last l0 0 =? max_t)%Z eqn:El; [|exact Hspec].
+  exfalso. pose proof (last_In l0 Hne) as Hin. apply Hspec in Hin as [k [_ [_ Hlt]]]. lia.
+Qed.
+
+(* explicit rung_levels: grace_period, reduction_factor and rung_increment are ignored; the list is returned as it is,
+   except that a final entry equal to max_t is stripped (and nothing else) *)
+Theorem explicit_levels_exact l0 grace rf incr max_t l :
+  sh_rung_levels (Some l0) grace rf incr max_t = Some l ->
+  l = (if (last l0 0 =? max_t)%Z then removelast l0 else l0) /\
+  sh_rung_levels (Some l0) 1 None None max_t = Some l.
+Proof.
+  unfold sh_rung_levels. intro H.
+  destruct ((2 <=? length l0)%nat && forallb (fun x => (1 <=? x)%Z) l0 && strictly_increasing l0 && (last l0 0 <=? max_t)%Z);
+    [|discriminate].
+  simpl in *. injection H as <-. split; reflexivity.
+Qed.
